@@ -35,6 +35,13 @@ const (
 	sigExtStale      = "backward-seek-with-start:keys-extending-prefix+start:overwritten-key-returns-stale-value"
 )
 
+// Signature of a second defect class found by this check: when a scan trims
+// the prefix (SeekAsync with cutPrefix - dao.SeekAsync, System.Storage.Find),
+// the merge keeps comparing lower-layer keys with the last in-memory key after
+// that key has been trimmed and the in-memory items are exhausted, so a
+// lower-layer key K is dropped when Prefix+K was the last in-memory key.
+const sigCutGhost = "seek-with-prefix-trimming:lower-layer-key-equal-to-trimmed-last-memory-key-omitted"
+
 var backendKinds = []string{"mem", "bolt", "leveldb"}
 
 // Key universe: heads select the map inside the memory layers (0x70/0x71 go to
@@ -378,17 +385,83 @@ func diffKind(q *query, got, want []refmap.KV, view map[string][]byte) string {
 	return "wrong-order-or-length"
 }
 
-// classify compares one answer with the model. It returns "" when they agree,
-// one of the three known-class signatures when the only differences concern
-// keys that properly extend Prefix+Start of a backward range, and a generic
-// shape otherwise (known reports which).
-func classify(q *query, got []refmap.KV, view map[string][]byte) (sig string, known bool, want []refmap.KV) {
-	want = refmap.Seek(view, q.rng, true)
-	if q.stop > 0 && len(want) > q.stop {
-		want = want[:q.stop]
+// isCut tells whether the API asks the store to trim the prefix off the keys.
+func isCut(api int) bool {
+	return api == apiAsyncCut || api == apiAsyncCancel || api == apiDaoAsync || api == apiFind
+}
+
+// ghostCands marks the elements of want (in iteration order) whose full key
+// equals the *trimmed* form of a key delivered earlier: prefix+K[i] == K[j],
+// j < i. These are the keys the second defect class of the pinned tree drops
+// (see sigCutGhost).
+func ghostCands(want []refmap.KV, prefix []byte) []bool {
+	out := make([]bool, len(want))
+	for i := range want {
+		for j := 0; j < i; j++ {
+			if want[j].K == string(prefix)+want[i].K {
+				out[i] = true
+			}
+		}
 	}
+	return out
+}
+
+// dropGhosts removes from want the ghost candidates that got does not contain
+// and reports how many were removed.
+func dropGhosts(q *query, got, want []refmap.KV) ([]refmap.KV, int) {
+	if !isCut(q.api) || len(q.rng.Prefix) == 0 {
+		return want, 0
+	}
+	cands := ghostCands(want, q.rng.Prefix)
+	var out []refmap.KV
+	n := 0
+	if q.cmp == cmpVals {
+		// keys are not delivered: align by position
+		j := 0
+		for i, kv := range want {
+			if j < len(got) && bytes.Equal(got[j].V, kv.V) {
+				out = append(out, kv)
+				j++
+			} else if cands[i] {
+				n++
+			} else {
+				out = append(out, kv)
+			}
+		}
+		return out, n
+	}
+	have := map[string]bool{}
+	for _, kv := range got {
+		have[kv.K] = true
+	}
+	for i, kv := range want {
+		if cands[i] && !have[kv.K] {
+			n++
+			continue
+		}
+		out = append(out, kv)
+	}
+	return out, n
+}
+
+// classify compares one answer with the model. It returns "" when they agree,
+// the signature of a known defect class of the pinned tree when the answer
+// differs in exactly that way (known = true), and a generic shape otherwise.
+func classify(q *query, got []refmap.KV, view map[string][]byte) (sig string, known bool, want []refmap.KV) {
+	full := refmap.Seek(view, q.rng, true)
+	cut := func(w []refmap.KV) []refmap.KV {
+		if q.stop > 0 && len(w) > q.stop {
+			return w[:q.stop]
+		}
+		return w
+	}
+	want = cut(full)
 	if eqStrs(canon(got, q.cmp), canon(want, q.cmp)) {
 		return "", false, want
+	}
+	less, ghosts := dropGhosts(q, got, full)
+	if ghosts > 0 && eqStrs(canon(got, q.cmp), canon(cut(less), q.cmp)) {
+		return sigCutGhost, true, want
 	}
 	if q.rng.Backwards && len(q.rng.Start) > 0 && q.stop == 0 && q.cmp == cmpBoth {
 		var gotRest, wantRest, gotExt []refmap.KV
@@ -403,11 +476,8 @@ func classify(q *query, got []refmap.KV, view map[string][]byte) (sig string, kn
 				gotRest = append(gotRest, kv)
 			}
 		}
-		wantExt := map[string]bool{}
-		for _, kv := range want {
-			if q.rng.Extends(kv.K) {
-				wantExt[kv.K] = true
-			} else {
+		for _, kv := range less {
+			if !q.rng.Extends(kv.K) {
 				wantRest = append(wantRest, kv)
 			}
 		}
@@ -436,20 +506,48 @@ func classify(q *query, got []refmap.KV, view map[string][]byte) (sig string, kn
 			}
 		}
 	}
-	dir, st, dp, tg := "forward", "no-start", "depth0", "on-layer"
+	dir, st, kind := "forward", "no-start", "scan"
 	if q.rng.Backwards {
 		dir = "backward"
 	}
 	if len(q.rng.Start) > 0 {
 		st = "with-start"
 	}
-	if q.rng.SearchDepth > 0 {
-		dp = "depthN"
+	if isCut(q.api) {
+		kind = "trimming-scan"
 	}
-	if q.target < 0 {
-		tg = "on-backend"
+	// The part after '|' (how the answer departs) goes to the detail, not to the signature.
+	return fmt.Sprintf("seek-differs-from-ordered-map:%s:%s:%s|%s", kind, dir, st, diffKind(q, got, want, view)), false, want
+}
+
+// splitSig separates the signature proper from the detail suffix added by classify.
+func splitSig(s string) (string, string) {
+	if i := strings.IndexByte(s, '|'); i >= 0 {
+		return s[:i], s[i+1:]
 	}
-	return fmt.Sprintf("seek-differs-from-ordered-map:%s:%s:%s:%s:%s:%s", apiNames[q.api], dir, st, dp, tg, diffKind(q, got, want, view)), false, want
+	return s, ""
+}
+
+// worse orders the known-class signatures so that one query reports the most
+// telling one.
+func worse(a, b string) string {
+	rank := func(s string) int {
+		switch s {
+		case sigExtResurfaces:
+			return 4
+		case sigExtStale:
+			return 3
+		case sigCutGhost:
+			return 2
+		case sigExtDepends:
+			return 1
+		}
+		return 0
+	}
+	if rank(b) > rank(a) {
+		return b
+	}
+	return a
 }
 
 type seqCase struct {
@@ -466,12 +564,17 @@ type seqCase struct {
 	merged  bool
 	hidden  bool
 	nval    int
-	cover   []byte // one-byte prefixes covering the key universe (nil: derive from heads)
+	cover   []byte                // one-byte prefixes covering the key universe (nil: derive from heads)
+	valOf   func(v []byte) string // how a stored value is shown / compared in backend audits (nil: as is)
+	// sfx is the suffix universe of the case: the common list plus two suffixes
+	// that repeat the first head, so that some keys equal prefix+otherKey (a
+	// key whose trimmed form is another full key).
+	sfx [][]byte
 }
 
 func (c *seqCase) key() []byte {
 	h := heads[c.sh.h[c.r.Intn(2)]]
-	return append(bytes.Clone(h), suffixes[c.r.Intn(len(suffixes))]...)
+	return append(bytes.Clone(h), c.sfx[c.r.Intn(len(c.sfx))]...)
 }
 
 func (c *seqCase) val() []byte {
@@ -517,7 +620,11 @@ func (c *seqCase) dumpBase(rp *replica) []string {
 	var out []string
 	for _, b := range c.firstBytes() {
 		rp.base.Seek(storage.SeekRange{Prefix: []byte{b}}, func(k, v []byte) bool {
-			out = append(out, hex.EncodeToString(k)+"="+string(v))
+			sv := string(v)
+			if c.valOf != nil {
+				sv = c.valOf(v)
+			}
+			out = append(out, hex.EncodeToString(k)+"="+sv)
 			return true
 		})
 	}
@@ -564,11 +671,13 @@ func (c *seqCase) audit(wroteBase bool, op string, pre [][]string) {
 		}
 		rp.dead = true
 		c.run.Obs("replicas_dropped_after_backend_divergence", 1)
-		sig := "backend-content-differs-from-ordered-map-after-" + op + ":" + rp.kind
+		sig := "backend-content-differs-from-ordered-map-after-acknowledged-write:" + rp.kind
+		how := "differs from both the model and the previous content"
 		if eqStrs(got, pre[i]) {
-			sig = "acknowledged-write-not-visible-in-backend:" + rp.kind
+			how = "is unchanged, the write is not visible at all"
 		}
-		c.violation(sig, fmt.Sprintf("after %q the %s backend holds %v, the model %v (before the operation the backend held %v)", c.log[len(c.log)-1], rp.kind, got, want, pre[i]),
+		_ = op
+		c.violation(sig, fmt.Sprintf("after %q the %s backend holds %v, the model %v (before the operation the backend held %v: the content %s)", c.log[len(c.log)-1], rp.kind, got, want, pre[i], how),
 			map[string]any{"backend": rp.kind, "content": got, "model": want, "content_before": pre[i]})
 	}
 }
@@ -709,10 +818,12 @@ func (c *seqCase) observeMerge(q *query, want []refmap.KV) {
 }
 
 // ask runs q on every replica, compares each answer with the model and the
-// answers with each other; it returns the canonical answers per replica.
-func (c *seqCase) ask(q *query) [][]string {
+// answers with each other; it returns the canonical answers per replica and
+// the known-class signature (if any) each answer was filed under.
+func (c *seqCase) ask(q *query) ([][]string, []string) {
 	view := c.m.View(q.target, q.rng.SearchDepth)
 	answers := make([][]string, len(c.reps))
+	classes := make([]string, len(c.reps))
 	fails := map[string]string{}
 	knownSig := ""
 	var want []refmap.KV
@@ -736,9 +847,8 @@ func (c *seqCase) ask(q *query) [][]string {
 			continue
 		}
 		if known {
-			if knownSig == "" || sig == sigExtResurfaces || (sig == sigExtStale && knownSig == sigExtDepends) {
-				knownSig = sig
-			}
+			classes[i] = sig
+			knownSig = worse(knownSig, sig)
 			continue
 		}
 		fails[rp.kind] = sig
@@ -765,8 +875,16 @@ func (c *seqCase) ask(q *query) [][]string {
 	c.observeMerge(q, want)
 	shown["query"] = q.String()
 	shown["model"] = canon(want, q.cmp)
+	if isCut(q.api) {
+		for _, g := range ghostCands(want, q.rng.Prefix) {
+			if g {
+				c.run.Obs("trimming_scans_with_a_key_equal_to_a_trimmed_earlier_key", 1)
+				break
+			}
+		}
+	}
 	if knownSig != "" {
-		c.violation(knownSig, fmt.Sprintf("%s: model(persistent-backend semantics)=%v mem=%v bolt=%v leveldb=%v", q, shown["model"], shown["mem"], shown["bolt"], shown["leveldb"]), shown)
+		c.violation(knownSig, fmt.Sprintf("%s: model=%v mem=%v bolt=%v leveldb=%v", q, shown["model"], shown["mem"], shown["bolt"], shown["leveldb"]), shown)
 	}
 	if len(fails) > 0 {
 		var first string
@@ -776,25 +894,26 @@ func (c *seqCase) ask(q *query) [][]string {
 				break
 			}
 		}
-		c.violation(first+":"+kindsOf(fails), fmt.Sprintf("%s: model=%v mem=%v bolt=%v leveldb=%v", q, shown["model"], shown["mem"], shown["bolt"], shown["leveldb"]), shown)
+		sg, how := splitSig(first)
+		c.violation(sg+":"+kindsOf(fails), fmt.Sprintf("%s [%s]: model=%v mem=%v bolt=%v leveldb=%v", q, how, shown["model"], shown["mem"], shown["bolt"], shown["leveldb"]), shown)
 	} else if knownSig == "" {
 		for i := 1; i < len(answers); i++ {
 			if answers[i] == nil || answers[i-1] == nil {
 				continue
 			}
 			if !eqStrs(answers[i-1], answers[i]) { // cannot happen when all agree with the model; kept as an independent oracle
-				c.violation("backends-disagree:"+apiNames[q.api], q.String(), shown)
+				c.violation("backends-disagree", q.String(), shown)
 			}
 		}
 	}
-	return answers
+	return answers, classes
 }
 
 // gets compares point reads of the whole key universe on one target.
 func (c *seqCase) gets(target int) {
 	view := c.m.View(target, 0)
 	for _, hi := range c.sh.h {
-		for _, sfx := range suffixes {
+		for _, sfx := range c.sfx {
 			k := append(bytes.Clone(heads[hi]), sfx...)
 			want, live := view[string(k)]
 			fails := map[string]string{}
@@ -853,6 +972,12 @@ func (c *seqCase) seekGC(li int) {
 	r := c.r
 	rg := c.genRange(-1)
 	rg.SearchDepth = 0
+	switch r.Intn(4) { // mostly wide ranges, so that the scan has something to visit
+	case 0, 1:
+		rg.Prefix = bytes.Clone(heads[c.sh.h[r.Intn(2)]])
+	case 2:
+		rg.Prefix = bytes.Clone(heads[c.sh.h[r.Intn(2)]][:1])
+	}
 	salt := uint32(r.Intn(1000))
 	stopAt := 0
 	if r.Intn(3) == 0 {
@@ -896,7 +1021,7 @@ func (c *seqCase) seekGC(li int) {
 		if known {
 			knownSig = sig
 		} else if sig != "" {
-			fails[rp.kind] = strings.Replace(sig, "seek-differs-from-ordered-map:Seek", "seekgc-visits-differ-from-ordered-map", 1)
+			fails[rp.kind] = strings.Replace(sig, "seek-differs-from-ordered-map:scan", "seekgc-visits-differ-from-ordered-map", 1)
 		}
 	}
 	for _, kv := range want {
@@ -919,7 +1044,8 @@ func (c *seqCase) seekGC(li int) {
 				break
 			}
 		}
-		c.violation(first+":"+kindsOf(fails), fmt.Sprintf("SeekGC visits: %v", shown), shown)
+		sg, how := splitSig(first)
+		c.violation(sg+":"+kindsOf(fails), fmt.Sprintf("SeekGC visits [%s]: %v", how, shown), shown)
 	}
 }
 
@@ -954,8 +1080,9 @@ func (c *seqCase) persist(li int, mode string) {
 		qs = append(qs, c.genQuery(target, true))
 	}
 	before := make([][][]string, len(qs))
+	beforeCls := make([][]string, len(qs))
 	for i, q := range qs {
-		before[i] = c.ask(q)
+		before[i], beforeCls[i] = c.ask(q)
 	}
 	n := len(c.m.Layers[li])
 	c.log = append(c.log, fmt.Sprintf("%s L%d (%d entries)", mode, li, n))
@@ -992,7 +1119,7 @@ func (c *seqCase) persist(li int, mode string) {
 		c.run.Obs("flushes_of_nonempty_layers", 1)
 	}
 	for i, q := range qs {
-		after := c.ask(q)
+		after, afterCls := c.ask(q)
 		for j := range after {
 			if before[i][j] == nil || after[j] == nil {
 				continue
@@ -1001,22 +1128,14 @@ func (c *seqCase) persist(li int, mode string) {
 			if eqStrs(before[i][j], after[j]) {
 				continue
 			}
-			sig := "flush-changes-answer:" + apiNames[q.api]
-			if q.rng.Backwards && len(q.rng.Start) > 0 {
-				// Decide whether the change concerns only keys extending Prefix+Start.
-				strip := func(a []string) []string {
-					var out []string
-					for _, s := range a {
-						kb, _ := hex.DecodeString(strings.SplitN(s, "=", 2)[0])
-						if !q.rng.Extends(string(kb)) {
-							out = append(out, s)
-						}
-					}
-					return out
-				}
-				if eqStrs(strip(before[i][j]), strip(after[j])) {
-					sig = sigExtDepends
-				}
+			// The model's answer does not depend on the flush, so one of the two
+			// answers differs from it and has been classified by ask already.
+			sig := "flush-changes-answer"
+			switch worse(beforeCls[i][j], afterCls[j]) {
+			case sigExtDepends, sigExtStale, sigExtResurfaces:
+				sig = sigExtDepends
+			case sigCutGhost:
+				sig = sigCutGhost
 			}
 			c.violation(sig, fmt.Sprintf("%s on %s: before %s of L%d %v, after %v", q, c.reps[j].kind, mode, li, before[i][j], after[j]),
 				map[string]any{"query": q.String(), "backend": c.reps[j].kind, "before": before[i][j], "after": after[j]})
@@ -1103,6 +1222,39 @@ func (c *seqCase) step(opIdx int) {
 	c.battery(ev.Pick(8, 10))
 }
 
+// sweep asks the top of the stack the whole grid prefix x start x direction
+// (x search depth in the thorough tier), alternating plain and trimming scans.
+func (c *seqCase) sweep() {
+	top := c.sh.depth - 1
+	starts := append([][]byte{nil}, suffixes[1:]...)
+	starts = append(starts, moreStarts...)
+	depths := []int{0}
+	if ev.Tier() == "thorough" {
+		depths = []int{0, 1, 2}
+	}
+	n := 0
+	for _, hi := range c.sh.h {
+		for pi, pre := range seekPres[1:] {
+			for _, st := range starts {
+				for _, back := range []bool{false, true} {
+					for _, d := range depths {
+						q := &query{api: apiSeek, target: top, rng: refmap.Range{Prefix: append(bytes.Clone(heads[hi]), pre...), Start: bytes.Clone(st), Backwards: back, SearchDepth: d}}
+						if (n+pi)%3 == 0 {
+							q.api = apiAsyncCut
+						}
+						n++
+						c.ask(q)
+					}
+				}
+			}
+		}
+		if c.sh.h[0] == c.sh.h[1] {
+			break
+		}
+	}
+	c.run.Obs("grid_sweep_queries", int64(n))
+}
+
 func runSeqCase(run *ev.Run, idx int, tmp string) {
 	id := fmt.Sprint("seq", idx)
 	r := rng.New(uint64(idx) + 9_000_000)
@@ -1124,6 +1276,7 @@ func runSeqCase(run *ev.Run, idx int, tmp string) {
 		}
 	}
 	c := &seqCase{id: id, sh: sh, r: r, m: refmap.New(sh.depth), run: run}
+	c.sfx = append(append([][]byte{}, suffixes...), bytes.Clone(heads[sh.h[0]]), append(bytes.Clone(heads[sh.h[0]]), 'a'))
 	c.log = append(c.log, "stack: "+sh.String())
 	defer func() {
 		for _, rp := range c.reps {
@@ -1154,6 +1307,7 @@ func runSeqCase(run *ev.Run, idx int, tmp string) {
 		for op := 0; op < nops; op++ {
 			c.step(op)
 		}
+		c.sweep()
 		// Flush everything top-down: no answer of the top may change on the way.
 		for li := sh.depth - 1; li >= 0; li-- {
 			mode := "Persist"
